@@ -298,6 +298,14 @@ int main(int argc, char **argv) {
     }
     for (size_t i = 0; i < items.size(); i++)
         if ((int) (i % nshards) == shard) items[i]();
+    // order of sizes: everything above visits the degrees in increasing order. Once more in decreasing order on the same thread,
+    // then small degrees right after a large one (nothing a product leaves behind may reach a later product of another degree)
+    if (shard < 2 || nshards == 1) {
+        VH_OP("history:decreasing-degrees");
+        for (int N = maxN < 1024 ? maxN : 1024; N >= 1; N /= 2) { test_products(N, 1); if (N >= 8) test_weights(N, 12); }
+        for (int N: {1, 2, 4, 8, 16}) { test_products(shard ? 512 : 256, 1); test_products(N, 2); test_linear(N, 4); test_monomials(N, true); }
+        out.cell("history:degrees-in-decreasing-order-and-small-after-large");
+    }
     out.finish();
     return 0;
 }
